@@ -237,7 +237,8 @@ def compute_elastic_linear_strain(dispGrad, state):
 # default to the Tupek strain measure
 def compute_elastic_seth_hill_strain(dispGrad, state):
     m=0.25
-    C = dispGrad.T@dispGrad
+    F = dispGrad + np.identity(3)
+    C = F.T@F
     strain = (TensorMath.pow_symm(C,m) - np.identity(3)) / (2*m)
     plasticStrain = state[PLASTIC_STRAIN].reshape((3,3))
     return strain - plasticStrain
